@@ -6,6 +6,9 @@
  * H1  response steering (sample_response of the three protocol variants):
  *       SQI_VERIF_H1_V2=k      accept only candidate responses whose degree has 2-adic valuation k
  *       SQI_VERIF_H1_BT=b      accept only candidates with backtracking b
+ *       SQI_VERIF_H1_ODD=1     accept only candidates whose content in O0 is not a power of two (dim-2 variant)
+ *       SQI_VERIF_UV_BRANCH=k  commit / keygen of the dim-2 variant draw ideals until find_uv's basis re-ordering takes
+ *                              branch k (1: q(b0)=q(b2), 2: q(b0)=q(b3), 3: q(b1)=q(b3); 0/unset: no steering)
  *       SQI_VERIF_H1_TRIES=n   extra rounds of 50 draws of the candidate loop per lattice (default 10)
  *       SQI_VERIF_H1_REUSE_COMMIT=1  keep the first commitment of the process and use it again
  *     When no candidate meets the steering protocols_sign returns the hook-only code -1 ("steering
@@ -42,10 +45,16 @@ verif_env_int(const char *name, int dflt)
 }
 
 static inline int
+verif_h1_odd(void)
+{
+    return verif_env_int("SQI_VERIF_H1_ODD", 0) != 0;
+}
+
+static inline int
 verif_h1_active(void)
 {
     const char *a = getenv("SQI_VERIF_H1_V2"), *b = getenv("SQI_VERIF_H1_BT");
-    return (a != NULL && *a != 0) || (b != NULL && *b != 0);
+    return (a != NULL && *a != 0) || (b != NULL && *b != 0) || verif_h1_odd();
 }
 
 /* does a candidate with valuation v2 and backtracking bt satisfy the steering? */
